@@ -12,11 +12,12 @@ import (
 )
 
 type verifPend struct {
-	n      int64
-	id     string
-	p      *Response
-	pctx   context.Context
-	cancel func()
+	n        int64
+	id       string
+	p        *Response
+	pctx     context.Context
+	cancel   func()
+	deadline bool
 }
 
 type verifClientEnv struct {
@@ -69,9 +70,20 @@ func verifClientState(stopped bool) *verifClientEnv {
 			assume(o.n != k)
 		}
 		id := strconv.FormatInt(k, 10)
-		pctx, p := newPending(context.Background(), id)
+		// the caller's context: plain, or one that ends by deadline
+		base := context.Background()
+		end := func() {}
+		deadline := nondetBool("deadline-context")
+		if deadline {
+			base, end = verifDeadlineCtx(base)
+		}
+		pctx, p := newPending(base, id)
 		c.pending[id] = p
-		env.pend = append(env.pend, &verifPend{n: k, id: id, p: p, pctx: pctx, cancel: p.cancel})
+		v := &verifPend{n: k, id: id, p: p, pctx: pctx, cancel: p.cancel, deadline: deadline}
+		if deadline {
+			v.cancel = end
+		}
+		env.pend = append(env.pend, v)
 	}
 	return env
 }
@@ -255,7 +267,12 @@ func Harness_C04_step() {
 			vassert(len(env.cancels) == 0, "C05: OnCancel never runs for an answered request")
 			reach("too-late-cancel")
 		} else {
-			vassert(v.p.err != nil && filterError(v.p.err) == context.Canceled, "C05: the call ends with the context's own error")
+			if v.deadline {
+				vassert(v.p.err != nil && filterError(v.p.err) == context.DeadlineExceeded, "C05: the call ends with the context's own error (deadline)")
+				reach("deadline")
+			} else {
+				vassert(v.p.err != nil && filterError(v.p.err) == context.Canceled, "C05: the call ends with the context's own error")
+			}
 			vassert(len(env.cancels) == 1 && env.cancels[0] == v.id, "C05: OnCancel runs exactly once for a request that ended without a reply")
 			reach("cancelled")
 		}
